@@ -194,7 +194,11 @@ func checkStmt(dialect, qual, q string, u *universe, st stmt, stats *refStats) (
 			tk[k-2].K == kWord && strings.EqualFold(tk[k-2].V, "RENAME") {
 			continue
 		}
-		written := strings.Join(append(append([]string(nil), got...), name), ".")
+		var wp []string
+		for _, g := range append(append([]string(nil), got...), name) {
+			wp = append(wp, fmt.Sprintf("<%s>", g))
+		}
+		written := strings.Join(wp, ".") // every <…> is one identifier as written
 		switch qual {
 		case "custom":
 			switch {
